@@ -95,6 +95,14 @@ def string_program(rnd):
               Invoke(Str(base), "str", []), Bin("+", Bin("+", Str(""), Str(a)), Str(b))]
     if base == "x1":
         routes += [Bin("+", Str("x"), Invoke(Num(1), "str", [])), Interp([Str("x"), Num(1), Str("")])]
+    # slicing, splitting, iteration, case mapping and trimming (C09 names these routes)
+    routes += [Invoke(Str("_" + base + "_"), "slice", [Num(1), Num(-1)]), Invoke(Str(base + "#"), "slice", [Num(0), Num(len(base))]),
+               Index(Invoke(Invoke(Str("q," + base + ",r"), "split", [Str(",")]), "list", []), Num(1)),
+               Index(Invoke(Invoke(Str(base + "|"), "split", [Str("|")]), "list", []), Num(0)),
+               Invoke(Invoke(Str(base), "iter", []), "reduce", [Str(""), Lambda(["acc", "ch"], Bin("+", Var("acc"), Var("ch")))]),
+               Invoke(Str("  " + base + " "), "trim", []), Invoke(Str(base + " "), "trimEnd", [])]
+    if base.isascii() and base.islower():
+        routes += [Invoke(Str(base.upper()), "downCase", []), Invoke(Invoke(Str(base), "upCase", []), "downCase", [])]
     mod = []
     names = []
     for i in range(rnd.randint(2, 4)):
@@ -112,6 +120,13 @@ def string_program(rnd):
     mod.append(Class("K", None, [Fn("init", [], Block([ExprSt(PropSet(Self(), "key", Num(1)))]), "init"), Fn("field", [], Block([Return(Num(2))]), "method")]))
     mod.append(Let("k", Call(Var("K"), [])))
     mod.append(Print(Prop(Var("k"), "key"), Invoke(Var("k"), "field", [])))
+    # as map keys: an entry stored under one string is found by every equal one
+    mod.append(Let("tbl", MapLit([])))
+    mod.append(ExprSt(IndexSet(Var("tbl"), Var(names[0]), Num(1))))
+    for x in names[1:]:
+        mod.append(Print(Invoke(Var("tbl"), "has", [Var(x)]), Invoke(Var("tbl"), "get", [Var(x)]), Invoke(Var("tbl"), "len", [])))
+        mod.append(ExprSt(IndexSet(Var("tbl"), Var(x), Num(2))))
+    mod.append(Print(Invoke(Var("tbl"), "len", []), Invoke(Var("tbl"), "has", [Str(base + "_")])))
     mod.append(Let("all", List([Var(x) for x in names])))
     mod.append(Print(Var("all"), Invoke(Var("all"), "len", [])))
     return Module(mod)
@@ -134,6 +149,14 @@ def late_name_program(rnd):
     main.append(ImportSyms("reader", [("read", "read"), ("call", "call"), ("write", "write")]))
     main.append(Print(Call(Var("read"), [Var("p")]), Call(Var("call"), [Var("p")]), Call(Var("write"), [Var("p"), Num(9)])))
     main.append(Print(Invoke(Var("acc"), "len", [])))
+    # a string that comes from another module equals the one built here, also as a map key
+    tag = rnd.choice(["tag", "aé", "k1"])
+    reader["kids"].append(Export(Let("tagged", Bin("+", Str(tag[:1]), Str(tag[1:])))))
+    reader["kids"].append(Export(Let("table", MapLit([(Str(tag), Num(5))]))))
+    main.append(ImportSyms("reader", [("tagged", "tagged"), ("table", "table")]))
+    main.append(Let("mine", Interp([Str(tag[:1]), Str(tag[1:]), Str("")])))
+    main.append(Print(Bin("==", Var("mine"), Var("tagged")), Invoke(Var("table"), "get", [Var("mine")]), Invoke(Var("table"), "has", [Var("tagged")]),
+                      Index(Var("table"), Invoke(Str(" " + tag), "trim", []))))
     return {"main": Module(main), "mods": {"shapes": shapes, "reader": reader}}
 
 
